@@ -250,16 +250,23 @@ def run(R, env):
             cb = prog.body(t.get("rkey")) if t.get("rkey") else None
             if cb is not None and any(ns_of(prog, a) == "inflight" for a in args if a[0] in ("item",)) and any(s_[0] == "closure" for a in args for s_ in subterms(a)):
                 pcalls.append((bi, t, args))
-        RECOVER_SHAPE = ["C07.R5", "C07.R6", "C07.R7", "C07.R8"]
+        RECOVER_SHAPE = ["C07.R6", "C07.R7", "C07.R8"]
         deep_scan = []
         if not pcalls:
-            # the handler does not scan INFLIGHT_PACKETS through the pagination helper in its own
-            # body (selection / summation moved into helpers): the shape rules below model only the
+            # the handler does not scan INFLIGHT_PACKETS through the pagination helper in its own body
+            # (selection / summation moved into helpers).  The eligibility filter (R5) is evaluated
+            # wherever the scan is (parameters bound); the loop-shape rules R6-R8 model only the
             # in-line idiom and do not decide a restructured handler.  The authorization of forced
             # recovery (R6, world-based) is still decided.
-            deep_scan = [1 for c_, p_ in inline_walk(prog, w, 3) for bi_, t_, a_ in call_sites(c_, lambda nm: True) if prog.body(t_.get("rkey") or "") is not None and any(ns_of(prog, x) == "inflight" for x in a_ if x[0] == "item") and any(s_[0] == "closure" for x in a_ for s_ in subterms(x))]
+            for c_, p_ in inline_walk(prog, w, 3):
+                if not p_:
+                    continue
+                for bi_, t_, a_ in call_sites(c_, lambda nm: True):
+                    if prog.body(t_.get("rkey") or "") is not None and any(ns_of(prog, x) == "inflight" for x in a_ if x[0] == "item") and any(s_[0] == "closure" for x in a_ for s_ in subterms(x)):
+                        deep_scan.append((p_[0][1], t_, a_))
             if deep_scan:
                 R.set_undecided(RECOVER_SHAPE, "recover is restructured into helpers; only the in-line selection/summation idiom is modelled")
+                pcalls = deep_scan
         R.ob("C07.R5", "recover:uses-filtered-pagination", len(pcalls) == 1, "found %d paginated scans of INFLIGHT_PACKETS with a filter in the permissionless path" % len(pcalls), fn=hk)
         for bi, t, args in pcalls:
             clo = [s_ for a in args for s_ in subterms(a) if s_[0] == "closure"][0]
@@ -333,7 +340,7 @@ def run(R, env):
         good = len(loads) >= 1 and all(o["args"][2][0] == "payload" and any(shared.selected_packets_pred(s_) for s_ in subterms(o["args"][2])) for o in loads)
         R.ob("C07.R6", "recover:forced:loads-selected-packets", good, "forced recovery does not load exactly the selected ids from INFLIGHT_PACKETS", fn=hk)
         # authorization of the forced path is world-based, not shape-based: always decided
-        restructured = not pcalls and bool(deep_scan)
+        restructured = bool(deep_scan)
         R.clear_undecided(["C07.R6"])
         shared.forced_recover_admin(R, env, prog, *_arm(prog), "C07.R6")
         if restructured:
